@@ -540,9 +540,49 @@ def run_mask_case(case):
     return {'steps': steps, 'mask_len': len(col.maskedErrors), 'fails': fails[:2]}
 
 
+def run_site_case(case, cols):
+    """call the loader of ONE object directly (the documented static load methods) on the faulted
+    element, with a document loaded from the undamaged base for the look-ups"""
+    import collada
+    import xml.etree.ElementTree as ET
+    base = case['base_xml']
+    if base not in cols:
+        cols[base] = collada.Collada(io.BytesIO(base.encode('utf-8')))
+    col = cols[base]
+    el = ET.fromstring(case['item'])
+    k = case['kind']
+    try:
+        if k == 'KTransform':
+            collada.scene.loadNode(col, el, {})
+        elif k == 'KMaterial':
+            collada.material.Material.load(col, {}, el)
+        elif k == 'KLight':
+            collada.light.Light.load(col, {}, el)
+        elif k == 'KCamera':
+            collada.camera.Camera.load(col, {}, el)
+        else:
+            collada.source.Source.load(col, {}, el)
+        direct = 0
+        name = None
+    except Exception as e:  # noqa
+        direct = exc_code(e)
+        name = type(e).__name__
+    return {'direct': direct, 'direct_name': name, 'doc': case['doc_esc'], 'fails': []}
+
+
 def main():
     payload = json.load(sys.stdin)
     out = []
+    if payload.get('kind') == 'site':
+        cols = {}
+        for c in payload['cases']:
+            try:
+                out.append(run_site_case(c, cols))
+            except Exception as e:  # noqa
+                out.append({'direct': 99, 'doc': 99, 'fails': [{'signature': 'C08:site:worker-exception:' + type(e).__name__,
+                                                                 'clause': 'worker', 'what': 'calling the loader raised %r in the harness' % (e,)}]})
+        json.dump(out, sys.stdout)
+        return
     if payload.get('kind') == 'mask':
         for c in payload['cases']:
             try:
